@@ -1,7 +1,11 @@
 package rules
 
 import (
+	"fmt"
 	"go/token"
+	"go/types"
+	"sort"
+
 	"golang.org/x/tools/go/ssa"
 
 	"verif/checker/internal/ir"
@@ -9,7 +13,7 @@ import (
 
 func init() {
 	register(&Prop{ID: "C08", Run: runC08, NotDecided: []string{
-		"torn trailing record: a partial record left by a crash mid-append is not trimmed on open (F9; size/80 floors; described in DESIGN, no robust rule)",
+		"which bytes of an interrupted write reach the disk (the rules fix what the reopen does with whatever it finds: C08.O4, C08.O7, C08.V1)",
 		"fsync ordering across power loss (process death only is considered)",
 		"that syncing resumes correctly after recovery",
 	}})
@@ -80,103 +84,180 @@ func runC08(c *Ctx) {
 	c.rule("C08.O6", "every batch the importer makes durable leaves both stores openable (a filter batch written without its tip block hash leaves a zero tip pointer that the next start-up cannot resolve): "+consistentBatchesDoc, func() { c.consistentBatches() })
 
 	c.rule("C08.O4", "start-up reconciliation: on every non-empty open both constructors read the index tip (chainTip), compare it with the last record in the file and cut the file back (truncateHeaders) when they differ, before returning the store", func() {
-		for _, spec := range []struct{ name, eq string }{{fnNewB, "IsEqual"}, {fnNewF, "IsEqual"}} {
-			fn := c.fn(spec.name)
-			// success returns outside the "file empty" branch
-			var okRets []ssa.Instruction
-			for _, in := range find(fn, isExit) {
-				r := in.(*ssa.Return)
-				if ir.IsNil(ir.RetVal(r, 1)) {
-					okRets = append(okRets, in)
-				}
+		c.startupReconciliation(reconSpec{fnNewB, "IsEqual"}, reconSpec{fnNewF, "IsEqual"})
+	})
+
+	c.rule("C08.V1", "whole records are cut off the real end of the file: truncateHeaders computes the new length as (current length) - numHeaders * (record size), where the current length is asked of the file in that call (Stat().Size() or Seek(0, io.SeekEnd)); a remembered length is accepted only if every function of the package that changes the file's length (Write / Truncate on it, os.Truncate) - or each of its callers - writes the remembered length again after doing so: a length recorded before the start-up trim of a torn tail stays too large by the fragment, every later rollback leaves that fragment of a removed header behind, and the append-only file then holds every later record at a shifted offset", func() {
+		fn := c.fn("(*headerfs.headerFile).truncateHeaders")
+		truncFile := c.hfs("headerFile", "truncateFile")
+		sizeOfType := c.method("headerfs", "HeaderType", "Size")
+		lenChange := func(in ssa.Instruction) bool {
+			cc := ir.CallOf(in)
+			if cc == nil {
+				return false
 			}
-			// the Size()==0 comparison
-			var emptyCmp []ssa.Instruction
-			ir.Instrs(fn, func(in ssa.Instruction) {
-				b, ok := in.(*ssa.BinOp)
+			if cc.IsInvoke() {
+				n := cc.Method.Name()
+				if n != "Truncate" && n != "Write" && n != "WriteString" && n != "WriteAt" {
+					return false
+				}
+				// on the header file: an interface with Stat and Truncate
+				it, ok := cc.Value.Type().Underlying().(*types.Interface)
 				if !ok {
-					return
-				}
-				k, isC := ir.ConstInt(b.Y)
-				if !isC || k != 0 {
-					return
-				}
-				if call, ok := b.X.(*ssa.Call); ok && call.Call.IsInvoke() && call.Call.Method.Name() == "Size" {
-					emptyCmp = append(emptyCmp, in)
-				}
-			})
-			ge := equalIs("fileInfo.Size() vs 0", emptyCmp, false) // success = non-empty
-			cut := ir.Cut{}
-			for _, s := range ge.sites {
-				cut[s.br.Other()] = true
-			}
-			tip := c.hfs("headerIndex", "chainTip")
-			isEq := c.method(pChainhash, "Hash", "IsEqual")
-			trunc := c.hfs("headerFile", "truncateHeaders")
-			construct := c.nm(fn) + " | non-empty open: chainTip precedes every successful return"
-			if len(ge.sites) < 1 {
-				c.fail(construct, c.P.Pos(fn.Pos()), "no `fileInfo.Size() == 0` test found")
-				continue
-			}
-			var bad []string
-			isTip := callTo(tip)
-			// recursive re-open (after a reset) is itself a constructor call
-			self := func(in ssa.Instruction) bool {
-				cc := ir.CallOf(in)
-				return cc != nil && cc.StaticCallee() == fn
-			}
-			ir.Walk(fn.Blocks[0], 0, cut, func(in ssa.Instruction) bool {
-				if isTip(in) || self(in) {
 					return false
 				}
-				if r, ok := in.(*ssa.Return); ok && ir.IsNil(ir.RetVal(r, 1)) {
-					bad = append(bad, c.at(in))
-				}
-				return true
-			})
-			c.verdict(len(bad) == 0 && len(okRets) >= 2, construct, c.P.Pos(fn.Pos()), "every successful return of a non-empty open is preceded by chainTip()", "successful return at "+join(bad)+" reachable on a non-empty open without reading the index tip", c.ats(okRets)...)
-			// the record the tip is compared with is the LAST one of the file:
-			// read at a height computed from the file's size, not at the
-			// index tip's height (that record matches whenever the file is
-			// merely ahead, and the surplus records would be kept)
-			isSize := func(x ssa.Value) bool {
-				call, ok := x.(*ssa.Call)
-				return ok && call.Call.IsInvoke() && call.Call.Method.Name() == "Size"
-			}
-			var reads []ssa.Instruction
-			okLast := true
-			for _, in := range find(fn, func(in ssa.Instruction) bool {
-				cc := ir.CallOf(in)
-				if cc == nil || cc.StaticCallee() == nil {
-					return false
-				}
-				return c.on(cc.StaticCallee().Object()) == "readHeader"
-			}) {
-				v, isV := in.(ssa.Value)
-				if !isV {
-					continue
-				}
-				feeds := false
-				for _, e := range find(fn, callTo(isEq)) {
-					for _, a := range ir.CallOf(e).Args {
-						if ir.InfluencedBy(a, func(x ssa.Value) bool { return x == v }) {
-							feeds = true
-						}
+				has := false
+				for i := 0; i < it.NumMethods(); i++ {
+					if it.Method(i).Name() == "Truncate" {
+						has = true
 					}
 				}
-				if !feeds {
-					continue
+				return has
+			}
+			if f := cc.StaticCallee(); f != nil && f.Pkg != nil && f.Pkg.Pkg.Path() == "os" {
+				if f.Name() == "Truncate" && f.Signature.Recv() == nil {
+					return true
 				}
-				reads = append(reads, in)
-				_, a := recvAndArgs(in)
-				if len(a) != 1 || !ir.InfluencedBy(a[0], isSize) || ir.InfluencedBy(a[0], valIsCallTo(tip)) {
-					okLast = false
+				if r := f.Signature.Recv(); r != nil && (f.Name() == "Truncate" || f.Name() == "Write" || f.Name() == "WriteString" || f.Name() == "WriteAt") {
+					return true
 				}
 			}
-			c.verdict(okLast && len(reads) >= 1, c.nm(fn)+" | the index tip is compared with the file's last record", c.P.Pos(fn.Pos()), "readHeader(height computed from the file size) feeds the comparison", "the record compared with the index tip is not read at the height computed from the file's size: when the file is ahead of the index the surplus records are not noticed", c.ats(reads)...)
-			geq := boolIs("tipHash.IsEqual(latest file record)", find(fn, callTo(isEq)), 0, true)
-			c.mustFollow(fn, "index tip != last file record", c.failEdges(geq), callTo(trunc), "truncateHeaders(fileHeight-tipHeight)", nil, 1)
-			c.guarded(fn, errNil("truncateHeaders", find(fn, callTo(trunc)), 0), 1, "return store after reconciliation", nil, 0, gDominate)
+			return false
+		}
+		isTrunc := func(in ssa.Instruction) bool {
+			if callTo(truncFile)(in) {
+				return true
+			}
+			cc := ir.CallOf(in)
+			if cc == nil {
+				return false
+			}
+			if cc.IsInvoke() {
+				return cc.Method.Name() == "Truncate"
+			}
+			f := cc.StaticCallee()
+			return f != nil && f.Name() == "Truncate" && f.Pkg != nil && f.Pkg.Pkg.Path() == "os"
+		}
+		asked := func(v ssa.Value) bool {
+			return ir.InfluencedBy(v, func(x ssa.Value) bool {
+				cc, ok := x.(*ssa.Call)
+				if !ok {
+					return false
+				}
+				name := ""
+				if cc.Call.IsInvoke() {
+					name = cc.Call.Method.Name()
+				} else if f := cc.Call.StaticCallee(); f != nil {
+					name = f.Name()
+				}
+				switch name {
+				case "Stat":
+					return true
+				case "Seek":
+					a := argsOf(cc)
+					if len(a) == 2 {
+						k, isC := ir.ConstInt(a[1])
+						return isC && k == 2
+					}
+				}
+				return false
+			})
+		}
+		var remembered *types.Var
+		fieldOf := func(v ssa.Value) bool {
+			return ir.DerivesFrom(v, func(x ssa.Value) bool {
+				if fa, ok := x.(*ssa.FieldAddr); ok {
+					if bt, isB := ir.FieldOfAddr(fa).Type().Underlying().(*types.Basic); isB && bt.Info()&types.IsInteger != 0 {
+						remembered = ir.FieldOfAddr(fa)
+						return true
+					}
+				}
+				return false
+			})
+		}
+		cuts := find(fn, isTrunc)
+		construct := c.nm(fn) + " | new length = current length - numHeaders * record size"
+		if len(cuts) == 0 {
+			c.fail(construct, c.P.Pos(fn.Pos()), "no truncation (truncateFile / Truncate) found in truncateHeaders")
+			return
+		}
+		for _, in := range cuts {
+			a := argsOf(in)
+			b, isB := ir.Strip(a[len(a)-1]).(*ssa.BinOp)
+			if !isB || b.Op != token.SUB {
+				c.fail(construct, c.at(in), "the new length is not a difference (current length - bytes to remove)", c.at(in))
+				continue
+			}
+			okSub := ir.InfluencedBy(b.Y, func(x ssa.Value) bool { return x == ssa.Value(fn.Params[1]) }) && ir.InfluencedBy(b.Y, valIsCallTo(sizeOfType))
+			if m, isM := ir.Strip(b.Y).(*ssa.BinOp); !isM || m.Op != token.MUL {
+				okSub = false
+			}
+			c.verdict(okSub, c.nm(fn)+" | bytes to remove = numHeaders * record size", c.at(in), "numHeaders * headerType.Size()", "the number of bytes cut off is not the product of numHeaders and the record size of the header type", c.at(in))
+			switch {
+			case asked(b.X):
+				c.pass(construct, c.at(in), "the current length is read from the file (Stat / Seek to the end) in this call", c.at(in))
+			case fieldOf(b.X):
+				// every length change is followed by a refresh of the field
+				refresh := storeToField(remembered)
+				var bad []string
+				var sites []string
+				var follows func(f *ssa.Function, at ssa.Instruction, depth int, trail string)
+				follows = func(f *ssa.Function, at ssa.Instruction, depth int, trail string) {
+					// found: the field is written behind the change; moot: every
+					// way on from here ends in an error return (the change was
+					// being undone, or is reported as failed)
+					found, moot := false, true
+					nres := f.Signature.Results().Len()
+					ir.WalkAfter(at, nil, func(x ssa.Instruction) bool {
+						if refresh(x) {
+							found = true
+						}
+						if ret, isRet := x.(*ssa.Return); isRet {
+							if nres == 0 {
+								moot = false
+							} else if rv := ir.RetVal(ret, nres-1); ir.IsNil(rv) || !(nonNilAt(rv, ret.Block()) || knownNonNilError(rv)) {
+								moot = false
+							}
+						}
+						return !found
+					})
+					if found || moot {
+						return
+					}
+					var callers []ssa.Instruction
+					var cfns []*ssa.Function
+					for _, g := range c.P.Funcs {
+						g := g
+						ir.Instrs(g, func(x ssa.Instruction) {
+							if cc := ir.CallOf(x); cc != nil && cc.StaticCallee() == f {
+								callers = append(callers, x)
+								cfns = append(cfns, g)
+							}
+						})
+					}
+					if len(callers) == 0 || depth >= 3 {
+						bad = append(bad, trail+" is not followed by a write of "+c.on(remembered))
+						return
+					}
+					for i, x := range callers {
+						follows(cfns[i], x, depth+1, c.nm(cfns[i])+" at "+c.at(x)+" -> "+trail)
+					}
+				}
+				for _, g := range c.P.Funcs {
+					if g.Pkg == nil || g.Pkg != fn.Pkg {
+						continue
+					}
+					g := g
+					for _, x := range find(g, lenChange) {
+						sites = append(sites, c.at(x))
+						follows(g, x, 0, c.nm(g)+" at "+c.at(x))
+					}
+				}
+				sort.Strings(bad)
+				c.verdict(len(bad) == 0 && len(sites) >= 2, construct, c.at(in), fmt.Sprintf("the remembered length %s is written again after each of the %d length changes of the file", c.on(remembered), len(sites)), "the current length is the remembered "+c.on(remembered)+", which goes stale: "+join(uniq(bad)), sites...)
+			default:
+				c.fail(construct, c.at(in), "the current length is neither read from the file in this call nor a remembered field", c.at(in))
+			}
 		}
 	})
 
@@ -242,4 +323,109 @@ func runC08(c *Ctx) {
 			c.guarded(tf, whole, 1, "return nil without truncating", nilRets, 1, gDominate)
 		}
 	})
+}
+
+type reconSpec struct{ name, eq string }
+
+// startupReconciliation: the constructors named in specs bring the flat file
+// back to the index tip before handing the store out (see C08.O4).
+func (c *Ctx) startupReconciliation(specs ...reconSpec) {
+	for _, spec := range specs {
+		fn := c.fn(spec.name)
+		// success returns outside the "file empty" branch
+		var okRets []ssa.Instruction
+		for _, in := range find(fn, isExit) {
+			r := in.(*ssa.Return)
+			if ir.IsNil(ir.RetVal(r, 1)) {
+				okRets = append(okRets, in)
+			}
+		}
+		// the Size()==0 comparison
+		var emptyCmp []ssa.Instruction
+		ir.Instrs(fn, func(in ssa.Instruction) {
+			b, ok := in.(*ssa.BinOp)
+			if !ok {
+				return
+			}
+			k, isC := ir.ConstInt(b.Y)
+			if !isC || k != 0 {
+				return
+			}
+			if call, ok := b.X.(*ssa.Call); ok && call.Call.IsInvoke() && call.Call.Method.Name() == "Size" {
+				emptyCmp = append(emptyCmp, in)
+			}
+		})
+		ge := equalIs("fileInfo.Size() vs 0", emptyCmp, false) // success = non-empty
+		cut := ir.Cut{}
+		for _, s := range ge.sites {
+			cut[s.br.Other()] = true
+		}
+		tip := c.hfs("headerIndex", "chainTip")
+		isEq := c.method(pChainhash, "Hash", "IsEqual")
+		trunc := c.hfs("headerFile", "truncateHeaders")
+		construct := c.nm(fn) + " | non-empty open: chainTip precedes every successful return"
+		if len(ge.sites) < 1 {
+			c.fail(construct, c.P.Pos(fn.Pos()), "no `fileInfo.Size() == 0` test found")
+			continue
+		}
+		var bad []string
+		isTip := callTo(tip)
+		// recursive re-open (after a reset) is itself a constructor call
+		self := func(in ssa.Instruction) bool {
+			cc := ir.CallOf(in)
+			return cc != nil && cc.StaticCallee() == fn
+		}
+		ir.Walk(fn.Blocks[0], 0, cut, func(in ssa.Instruction) bool {
+			if isTip(in) || self(in) {
+				return false
+			}
+			if r, ok := in.(*ssa.Return); ok && ir.IsNil(ir.RetVal(r, 1)) {
+				bad = append(bad, c.at(in))
+			}
+			return true
+		})
+		c.verdict(len(bad) == 0 && len(okRets) >= 2, construct, c.P.Pos(fn.Pos()), "every successful return of a non-empty open is preceded by chainTip()", "successful return at "+join(bad)+" reachable on a non-empty open without reading the index tip", c.ats(okRets)...)
+		// the record the tip is compared with is the LAST one of the file:
+		// read at a height computed from the file's size, not at the
+		// index tip's height (that record matches whenever the file is
+		// merely ahead, and the surplus records would be kept)
+		isSize := func(x ssa.Value) bool {
+			call, ok := x.(*ssa.Call)
+			return ok && call.Call.IsInvoke() && call.Call.Method.Name() == "Size"
+		}
+		var reads []ssa.Instruction
+		okLast := true
+		for _, in := range find(fn, func(in ssa.Instruction) bool {
+			cc := ir.CallOf(in)
+			if cc == nil || cc.StaticCallee() == nil {
+				return false
+			}
+			return c.on(cc.StaticCallee().Object()) == "readHeader"
+		}) {
+			v, isV := in.(ssa.Value)
+			if !isV {
+				continue
+			}
+			feeds := false
+			for _, e := range find(fn, callTo(isEq)) {
+				for _, a := range ir.CallOf(e).Args {
+					if ir.InfluencedBy(a, func(x ssa.Value) bool { return x == v }) {
+						feeds = true
+					}
+				}
+			}
+			if !feeds {
+				continue
+			}
+			reads = append(reads, in)
+			_, a := recvAndArgs(in)
+			if len(a) != 1 || !ir.InfluencedBy(a[0], isSize) || ir.InfluencedBy(a[0], valIsCallTo(tip)) {
+				okLast = false
+			}
+		}
+		c.verdict(okLast && len(reads) >= 1, c.nm(fn)+" | the index tip is compared with the file's last record", c.P.Pos(fn.Pos()), "readHeader(height computed from the file size) feeds the comparison", "the record compared with the index tip is not read at the height computed from the file's size: when the file is ahead of the index the surplus records are not noticed", c.ats(reads)...)
+		geq := boolIs("tipHash.IsEqual(latest file record)", find(fn, callTo(isEq)), 0, true)
+		c.mustFollow(fn, "index tip != last file record", c.failEdges(geq), callTo(trunc), "truncateHeaders(fileHeight-tipHeight)", nil, 1)
+		c.guarded(fn, errNil("truncateHeaders", find(fn, callTo(trunc)), 0), 1, "return store after reconciliation", nil, 0, gDominate)
+	}
 }
